@@ -417,6 +417,28 @@ def _lazy(name):
                 return _marker(403, a)
 
         c = ReuseTransformer
+    elif name == "DerivedLazyMF":
+        # two-level hierarchy: a subclass, defined at its first use, of an algorithm class that may already have been
+        # instantiated; it adds a more specific rule for an old type and overrides the rule for a late type
+
+        class C20DerivedLazyMF(C20DownstreamMF):
+            def abs(self, o, a):
+                return _marker(501, a)
+
+            def c20_late_op(self, o, a):
+                return _marker(502, a)
+
+        c = C20DerivedLazyMF
+    elif name == "DerivedLazyTR":
+
+        class C20DerivedLazyTR(C20DownstreamTR):
+            def abs(self, o, a):
+                return _marker(503, a)
+
+            def c20_late_op(self, o, a):
+                return _marker(504, a)
+
+        c = C20DerivedLazyTR
     else:
         raise RuntimeError(name)
     _LAZY[name] = c
@@ -546,6 +568,8 @@ def entries():
         ("LazyDT", "DT"),
         ("Replacer#dup", "MF"),
         ("ReuseTransformer#dup", "TR"),
+        ("DerivedLazyMF", "MF"),
+        ("DerivedLazyTR", "TR"),
     ):
 
         def run(e, nm=nm, kind=kind):
@@ -924,6 +948,9 @@ PAIRS = [
     ("Replacer", "syn.Replacer#dup", True),
     ("ReuseTransformer", "syn.ReuseTransformer#dup", True),
     ("ComplexNodeRemoval", "CopyTransformer", True),
+    # base class and a subclass defined later: using the base first must not change what the subclass does
+    ("syn.DownstreamMF", "syn.DerivedLazyMF", True),
+    ("syn.DownstreamTR", "syn.DerivedLazyTR", True),
     ("LowerCompoundAlgebra", "fn.apply_algebra_lowering", False),
 ]
 
